@@ -5,8 +5,9 @@
 (* The STATE is the scenario: a family in registration order (indices into *)
 (* AllC), an argument tuple (class + index) and, after the single Resolve  *)
 (* step, the outcome of the level-B model.  Init enumerates                *)
-(*   families of 1..MaxFam candidates of one arity x every argument tuple  *)
-(*   of that arity x every registration order,                             *)
+(*   families of 1..MaxFam candidates of one arity (and of 1..2 from the   *)
+(*   wider pool) x every argument tuple of that arity x every registration *)
+(*   order,                                                                *)
 (*   plus mixed-arity families (arity filter).                             *)
 (* Invariants: level B satisfies every level-A clause (AFail = ""), the    *)
 (* outcome is the same in every registration order, and the declarative    *)
@@ -21,6 +22,7 @@ CONSTANTS UIdx,      \* arity-1 candidates used (indices into AllU)
           AUIdx,     \* arity-1 argument tuples used (indices into ArgsU)
           ABIdx,     \* arity-2 argument tuples used (indices into ArgsB)
           MaxFam,    \* largest family
+          WideU, WideB,   \* wider pools (indices into AllU / AllB) from which families of one and two are drawn as well
           MixU, MixB, MixAU, MixAB,   \* mixed-arity families: one of MixU with one or two of MixB
           Emit
 
@@ -47,8 +49,8 @@ IsAsc(f)  == \A i \in 1..(Len(f) - 1) : f[i] < f[i + 1]
 Asc(f)    == CHOOSE p \in Perms(Range(f)) : IsAsc(p)
 
 InitWith(f, k, a) == \E p \in Perms(f) : fam = p /\ ak = k /\ ai = a /\ res = NoRes
-Init == \/ \E f \in UpTo(UIdx, MaxFam) : \E a \in AUIdx : InitWith(f, "u", a)
-        \/ \E f \in UpTo(GB, MaxFam) : \E a \in ABIdx : InitWith(f, "b", a)
+Init == \/ \E f \in UpTo(UIdx, MaxFam) \cup UpTo(WideU, 2) : \E a \in AUIdx : InitWith(f, "u", a)
+        \/ \E f \in UpTo(GB, MaxFam) \cup UpTo({NU + i : i \in WideB}, 2) : \E a \in ABIdx : InitWith(f, "b", a)
         \/ \E f \in MixFams : \E a1 \in MixAU : InitWith(f, "u", a1)
         \/ \E f \in MixFams : \E a2 \in MixAB : InitWith(f, "b", a2)
 
@@ -102,6 +104,8 @@ QMAU == {1, 9, 11}
 QMAB == {1, 4, 12}
 TU  == 1..NU
 TB  == 1..NB
+T3U == TU \ {5, 21, 22, 25, 26, 28, 30, 32, 33, 34}     \* families of three: 24 + 20 candidates
+T3B == TB \ {16, 17, 18, 21, 22, 24, 26, 28}
 TAU == 1..Len(ArgsU)
 TAB == 1..Len(ArgsB)
 =============================================================================
